@@ -1,8 +1,11 @@
 CLAIMED = True
 
 CFG = dict(
-    rule="four case kinds, each against the real code. F (1 per run): go/ast re-reads saveState's ordered file-system steps with their error "
-         "policy, the no-publish / no-save tag sets and the keys saveState inserts; compared with the model's constants. "
+    rule="four case kinds, each against the real code. F (1 per run): one real saveState is run in a child process with an observer at the verifC16Point sites; the "
+         "directory is photographed at every site and the file-system steps are inferred from the differences, together with the keys saveState "
+         "inserts and which probe topics a save writes; compared with the model's saveOps / saveAdds / noSave (primary tie, survives refactoring). "
+         "The go/ast reader of saveState (steps with error policy, no-publish / no-save sets) is a secondary cross-check, compared in full when it "
+         "recognises the code and reported as the ok-tag static-reader-unrecognised when it does not. "
          "H: a real RunClientUpdater fed through the real clientMessageChan (1..7 tags drawn from all real tags incl. no-publish, no-save, "
          "NEWDASTARD and unknown ones; 1..3 values per tag so repeats and unchanged values are frequent; 1..30 ops, thorough up to 120; SENDALL "
          "anywhere), observed by a real ZeroMQ SUB socket on the status port (live messages and SENDALL replies separated by in-band markers); "
@@ -47,9 +50,9 @@ MANIFEST = dict(
          "number of bytes into the non-atomic write of the temporary file, after any number of earlier complete saves): the file the next start-up "
          "reads existed and is the complete old or the complete new version (C16_crash_safe, C16_crash_safe_history), proved through a general "
          "theorem for every step list of a decidable 'safe shape' (C16_crash_safe_of_shape); an uninterrupted save installs the new content and "
-         "keeps the old one as backup. The step list, its error policies and the tag sets are RE-READ FROM THE GO SOURCE (go/ast) on every run "
-         "and compared with the model's constants, so a reordering of saveState breaks the correspondence (and, once transcribed, the "
-         "safe-shape obligation). Tie to the code on every run: real RunClientUpdater + real ZeroMQ SUB socket (live stream, SENDALL replies, "
+         "keeps the old one as backup. The step list is RE-OBSERVED on every run (a real saveState watched at its crash sites; plus a go/ast reading "
+         "of the source as cross-check where it recognises the code) and compared with the model's constants, so a reordering of saveState breaks "
+         "the correspondence (and, once transcribed, the safe-shape obligation). Tie to the code on every run: real RunClientUpdater + real ZeroMQ SUB socket (live stream, SENDALL replies, "
          "self-made saves read back); real saveState killed in a child process at every step boundary / inside the write, then the real "
          "start-up path of cmd/dastard; typed save -> real start-up restore round trips. Two defects were found by this check and repaired: "
          "the standard file was missing between the two renames of saveState (fix b58e5d8; C16_crash_unsafe_before_fix proves the old list "
